@@ -727,3 +727,55 @@ func namesFromPreds(b *ssa.BasicBlock, X ssa.Value) []string {
 	}
 	return nil
 }
+
+func init() {
+	Registry["WCROSS"] = func(c *Ctx, r *Report) {
+		n := ruleCrossWired(c, r, "FWD-FIELD", nil)
+		fmt.Println("copies", n)
+		for _, o := range r.Obls {
+			fmt.Println(o.Status, o.Key, o.Pos)
+		}
+	}
+}
+
+func init() {
+	Registry["WPURE"] = func(c *Ctx, r *Report) {
+		n := rulePureInputs(c, r, map[string]bool{"avc": true, "hevc": true, "sei": true, "aac": true, "av1": true, "mp4": true})
+		fmt.Println("decoders", n)
+		for _, o := range r.Obls {
+			if o.Status != Discharged {
+				fmt.Println(o.Status, o.Key, o.Pos, o.Detail)
+			}
+		}
+	}
+}
+
+func init() {
+	Registry["WADOPT"] = func(c *Ctx, r *Report) {
+		n := ruleNoAdoptThenAppend(c, r, "O-COPY")
+		fmt.Println("fields", n)
+		for _, o := range r.Obls {
+			fmt.Println(o.Status, o.Key, o.Pos, o.Detail)
+		}
+	}
+}
+
+func init() {
+	Registry["WSTRICT"] = func(c *Ctx, r *Report) {
+		n := ruleStrictUpper(c, r, "G7", func(f *ssa.Function) bool { return true })
+		fmt.Println("tests", n)
+		for _, o := range r.Obls {
+			fmt.Println(o.Status, o.Key, o.Pos, o.Detail)
+		}
+	}
+}
+
+func init() {
+	Registry["WTRUNC"] = func(c *Ctx, r *Report) {
+		n := ruleTruncReuse(c, r, "W-TRUNC", nil)
+		fmt.Println("narrow-then-widen", n)
+		for _, o := range r.Obls {
+			fmt.Println(o.Status, o.Key, o.Pos)
+		}
+	}
+}
